@@ -277,6 +277,28 @@ Proof.
   split; [vm_compute; reflexivity|]. eexists; split; [reflexivity|vm_compute; split; reflexivity].
 Qed.
 
+(* ---- the hypotheses are NEEDED (witnesses by computation) ---- *)
+(* wf_call (C20's wf_op), on the model: a file that passes the dimension check with ndim = 0 (fitsio.h:193 rejects it: the
+   model's input is totalised) read twice through readsplinefitstable_mem leaves lost blocks although everything is freed *)
+Theorem C18_wf_needed :
+  let h := [call 0 AInit; call 0 (AReadMem file0); call 0 (AReadMem file0); call 0 AFree] in
+  valid_sequence wrappers cfg_fixed no_fault no_fault cstate0 h = true /\ all_released (fst (run0 wrappers h)) = true
+  /\ lost (wm (cw (fst (run0 wrappers h)))) <> [] /\ balancedb (rev (trace (wm (cw (fst (run0 wrappers h)))))) = false.
+Proof. vm_compute. repeat split; discriminate. Qed.
+(* doc_pre: evaluation through a handle that a failed read left NULL, and grideval on an empty table, crash although the
+   sequence is valid (known finding C18:accessors:null-handle-deref; the C++ twin crashes identically) *)
+Theorem C18_doc_pre_needed :
+  let h1 := [call 0 (ARead ex_missing); call 0 AEval] in
+  let h2 := [call 0 AInit; call 0 (AGrideval 0 3)] in
+  valid_sequence wrappers cfg_fixed no_fault no_fault cstate0 h1 = true /\ pre_sequence wrappers cfg_fixed no_fault no_fault cstate0 h1 = false
+  /\ snd (run0 wrappers h1) = [RInt 1; Crashed]
+  /\ valid_sequence wrappers cfg_fixed no_fault no_fault cstate0 h2 = true /\ pre_sequence wrappers cfg_fixed no_fault no_fault cstate0 h2 = false
+  /\ snd (run0 wrappers h2) = [RInt 0; Crashed].
+Proof. vm_compute. repeat split; reflexivity. Qed.
+(* the table_checked obligation fails for the unchanged wrappers (writesplinefitstable did not test table->data) *)
+Theorem C18_refuted_table_checked : forallb (table_checked (orig_over wrappers)) all_shapes = false.
+Proof. vm_compute. reflexivity. Qed.
+
 Print Assumptions C18_tree_glue_ok.
 Print Assumptions C18_tree_null_checked.
 Print Assumptions C18_tree_forwarding.
@@ -294,6 +316,9 @@ Print Assumptions C18_balanced_tree.
 Print Assumptions C18_memory_safe.
 Print Assumptions C18_run_safe.
 Print Assumptions C18_faithful_compound.
+Print Assumptions C18_wf_needed.
+Print Assumptions C18_doc_pre_needed.
+Print Assumptions C18_refuted_table_checked.
 Print Assumptions C18_refuted_destroy_leaks.
 Print Assumptions C18_refuted_convolve_escapes.
 Print Assumptions C18_refuted_gradient_escapes.
